@@ -121,6 +121,8 @@ type Wire struct {
 	FiredList  []Fault        // every fault that fired, in order
 	FiltersOff bool
 	NoLoopback bool
+	WriteLag   time.Duration // virtual duration of every WriteTo call
+	BufMutated []string      // WriteTo buffers that changed during the call
 	nFaultID   int
 	sinkMade   int
 	srcMade    int
@@ -322,6 +324,16 @@ func (s *SimSink) WriteTo(buf []byte, dst netip.AddrPort) error {
 		ss = append(ss, w.world.OnProbe(w, s.idx, raw, p, perr, dst)...)
 	}
 	w.schedule(ss)
+	if w.WriteLag > 0 {
+		// the write call itself takes (virtual) time: the reply may be fully handled by the receiver before
+		// WriteTo returns, and whoever owns buf must not touch it until then
+		w.mu.Unlock()
+		time.Sleep(w.WriteLag)
+		w.mu.Lock()
+		if string(buf) != string(raw) {
+			w.BufMutated = append(w.BufMutated, fmt.Sprintf("sink#%d: the buffer passed to WriteTo changed while the write was in progress (entry % x, exit % x)", s.idx, raw[:min(len(raw), 48)], buf[:min(len(buf), 48)]))
+		}
+	}
 	return nil
 }
 
